@@ -260,6 +260,24 @@ class PrimMixin:
             return SliceV(args[0], args[1], None)
         return SliceV(*args)
 
+    # ---- the file system as seen by the Python glue: existence of a path is an uninterpreted predicate of the path string
+    def _path_exists(self, s):
+        f = ufunc("fs!exists", z3.StringSort(), B)
+        return f(to_z3(s))
+
+    def p_os_path_exists(self, args, kw, st, fr, node):
+        self.use("file system: os.path.exists(p) is an uninterpreted predicate of the path (stable during the call)")
+        return self._path_exists(args[0])
+
+    def p_builtin_path_exists(self, args, kw, st, fr, node):
+        return self._path_exists(args[0])
+
+    def p_os_path_expanduser(self, args, kw, st, fr, node):
+        self.use("paths: no '~' or '$VAR' in the file name (expanduser / expandvars are the identity)")
+        return args[0]
+
+    p_os_path_expandvars = p_os_path_expanduser
+
     def p_builtin_super(self, args, kw, st, fr, node):
         """super(Class, self): the base class as an opaque value named after the base expression in the class statement
         (`class Matcher(htmc.Matcher)` -> htmc.Matcher), so that a method call resolves to the contract of that name"""
